@@ -12,7 +12,7 @@
 (*   ReverseIsReverse  reversing every arc and swapping I/F reverses the   *)
 (*                     language (commutative semiring)                     *)
 (***************************************************************************)
-EXTENDS Automata, FiniteSetsExt, SequencesExt
+EXTENDS Automata, FiniteSetsExt, SequencesExt, Json, IOUtils
 
 CONSTANTS SRNAME, L
 sr == SRNAME
@@ -37,4 +37,8 @@ TotalIsSumOfAll ==
 RevM == [n |-> m.n, I |-> m.F, F |-> m.I,
          arcs |-> [r \in DOMAIN m.arcs |-> <<m.arcs[r][3], m.arcs[r][2], m.arcs[r][1], m.arcs[r][4]>>]]
 ReverseIsReverse == \A s \in StrsA : AWeightLfp(sr, RevM, s) = AWeightLfp(sr, m, Rev(s))
+
+(* write the family out so that the same automata are replayed into the real code (direction C) *)
+Dump == IF "FAMILY_FILE" \in DOMAIN IOEnv THEN ndJsonSerialize(IOEnv.FAMILY_FILE, FamSeq) ELSE TRUE
+ASSUME Dump
 =============================================================================
